@@ -10,8 +10,9 @@ Part A — the text layer, as functions on strings.
   `fixes/C18-export-values-explicit.patch`): ints natively, floats natively unless integral, strings bare only
   if `infer` reads them back as a string, lists as their `;`-joined rendering, everything else (and the
   exceptions) in the explicit one-key form `{string: …}`, `{float: …}`, `{point: …}`, `{id: …}`.  YAML itself
-  is the identity on typed scalars, except for the slip of yaml.v2 that a scalar `null` / `~` — even quoted —
-  is never handed to an `Unmarshaler` (`prepare`), which makes the document undecodable.
+  is the identity on typed scalars, except for the slip of yaml.v2 that a bare or quoted scalar `null` / `~`
+  is never handed to an `Unmarshaler` (`prepare`), which makes the document undecodable — the reason the
+  strings `null` and `~` are written in the explicit form too (`fixes/C18-export-null-string.patch`).
 * coordinates are E7 integers (`nan`, `±inf`, `big` beyond 1e10 degrees): the model does not follow float
   rounding below that.
 
@@ -297,11 +298,16 @@ def integralBits (b : String) : Bool :=
     else if 1075 - ex > 52 then false
     else (2 ^ 52 + frac) % 2 ^ (1075 - ex) == 0
 
+/-- yaml.v2 `prepare`: a scalar whose text is `null` or `~` is treated as null and never reaches
+`Expression.UnmarshalYAML`, even when it was written quoted; the
+explicit form `{string: …}` is read from the generic value instead (`explicitStringYAML`) -/
+def yamlNull (s : String) : Bool := s == "null" || s == "~"
+
 /-- `Expression.MarshalYAML` -/
 def encode : V → YVal
   | .atom (.str s) =>
     match infer s with
-    | .ok (.atom (.str _)) => .plain s
+    | .ok (.atom (.str _)) => if yamlNull s then .explicit "string" (.str s) else .plain s
     | _ => .explicit "string" (.str s)
   | .atom (.int n) => .int n
   | .atom (.flt b) => if integralBits b then .explicit "float" (.flt b) else .flt b
@@ -310,16 +316,11 @@ def encode : V → YVal
   | .atom (.other s) => .explicit "other" (.other s)
   | .list as => .plain (render (.list as))
 
-/-- yaml.v2 `prepare`: a scalar whose text is `null` or `~` is treated as null and never reaches
-`Expression.UnmarshalYAML`, even when it was written quoted -/
-def yamlNull (s : String) : Bool := s == "null" || s == "~"
-
 /-- `Expression.UnmarshalYAML`; `none` = the document cannot be decoded -/
 def decode : YVal → Option (Parse V)
   | .plain s => if yamlNull s then none else some (infer s)
   | .int n => some (.ok (.atom (.int n)))
   | .flt b => some (.ok (.atom (.flt b)))
-  | .explicit _ (.str s) => if yamlNull s then none else some (.ok (.atom (.str s)))
   | .explicit _ a => some (.ok (.atom a))
 
 def unrendered : Atom → Bool
@@ -779,6 +780,64 @@ def importDocs (b : Base) (acc : St → Feat → Bool) : St → List Doc → Opt
     match importDoc b acc s d with
     | some s' => importDocs b acc s' r
     | none => none
+
+/-- one document with `AddFeature` accepted -/
+def rebuildDoc (b : Base) (s : St) : Doc → St
+  | .feat f => s.addFeature b f
+  | .mods id add rm => rm.foldl (fun s k => s.removeTag b id k) (add.foldl (fun s t => s.addTag b id t) s)
+
+/-- the world rebuilt from a list of documents: the base plus what they say -/
+def rebuild (b : Base) (s : St) (docs : List Doc) : St := docs.foldl (rebuildDoc b) s
+
+/-- **when `Apply` gets through**: every feature document is accepted by `AddFeature` in the world rebuilt
+from the documents before it -/
+def docsValid (b : Base) (acc : St → Feat → Bool) : St → List Doc → Bool
+  | _, [] => true
+  | s, .feat f :: r => acc s f && docsValid b acc (s.addFeature b f) r
+  | s, .mods id add rm :: r => docsValid b acc (rebuildDoc b s (.mods id add rm)) r
+
+/-- the same as a condition on the exporting world `s` (and the order its features are listed in) -/
+def applyGetsThrough (b : Base) (acc : St → Feat → Bool) (s : St) (ord : List Id) : Bool :=
+  docsValid b acc St.empty (exportDocs s ord)
+
+/-! ### validation with an oracle for S2 -/
+
+/-- the coordinates of a path element: a literal, or the `point` tag of the feature referred to -/
+def elemCoord (find : Id → Option Feat) : Atom → Option (String × String)
+  | .pt la lo => some (la, lo)
+  | a => match atomRef a with
+    | some id => match find id with
+      | some f => match Mutable.AMap.get f.tags "point" with
+        | some (.atom (.pt la lo)) => some (la, lo)
+        | _ => none
+      | none => none
+    | none => none
+
+/-- the vertices `ValidatePath` hands to S2 for a closed path: all but the last element -/
+def loopCoords (find : Id → Option Feat) (tags : List Tag) : Option (List (String × String)) :=
+  match pathElems tags with
+  | some as => as.dropLast.mapM (elemCoord find)
+  | none => none
+
+/-- `ValidateFeature` with `loopOK` answering for S2 (`loop.Validate() == nil && loop.Area() <= 2π`) -/
+def validateFeatureO (loopOK : List (String × String) → Bool) (find : Id → Option Feat) (f : Feat) : Verd :=
+  match validateFeature find f with
+  | .s2 => match loopCoords find f.tags with
+    | some cs => if loopOK cs then .ok else .fail
+    | none => .fail
+  | v => v
+
+/-- `AddFeature`'s answer with the oracle: `ok`, or why not -/
+def St.validateAddO (loopOK : List (String × String) → Bool) (b : Base) (s : St) (f : Feat) : Verd :=
+  match validateFeatureO loopOK (s.find b) f with
+  | .ok =>
+    let find' : Id → Option Feat := fun id => if id = f.id then some f else s.find b id
+    let rs := ((s.referrers b f.id).filterMap (s.find b)).map (validateFeatureO loopOK find')
+    if rs.all (· == .ok) then .ok else .referrer
+  | v => v
+
+def St.accepts (loopOK : List (String × String) → Bool) (b : Base) (s : St) (f : Feat) : Bool :=
+  s.validateAddO loopOK b f == .ok
 
 /-! ### a concrete base: `BasicMutableWorld` filled with features -/
 
